@@ -1048,6 +1048,11 @@ func callBuiltin(caller *frame, callpos token.Pos, fn *ssa.Builtin, args []value
 			if b := blobOf(x); b != nil {
 				return b.lenValue()
 			}
+			if len(x) == 1 {
+				if w, ok := x[0].(*lazyWords); ok {
+					return mkInt(w.n, types.Int)
+				}
+			}
 			return len(x)
 		case *omap:
 			return x.len()
